@@ -56,7 +56,7 @@ def run(mode: str, limit: str, value: Optional[int], source: str, data: dict[str
     from mc import util as U
 
     env = get_env(mode, limit, value)
-    d = dict(data)
+    d = meter.fresh(data)
 
     def go() -> Any:
         t = env.from_string(source)
